@@ -528,11 +528,14 @@ type c10XM struct {
 	V  c10XV     `json:"v,omitempty"`
 }
 
-// a run-time let: list (let c<n>=m.k;) | int (let n<n>=m.k;) | size (let n<n>=m.size();)
+// a run-time let: list (let c<n>=m.k;) | int (let n<n>=m.k;) | size (let n<n>=m.size();) |
+// index (let c<n>=o<O>[I];) | osize (let n<n>=o<O>.size();)
 type c10XB struct {
 	Kind string `json:"kind"`
-	M    *c10XM `json:"m"`
+	M    *c10XM `json:"m,omitempty"`
 	K    string `json:"k,omitempty"`
+	O    int    `json:"o,omitempty"`
+	I    *c10E  `json:"i,omitempty"`
 }
 
 func (v c10XV) src() string {
@@ -599,8 +602,13 @@ func xmLit(kv ...any) *c10XM {
 // let is c<number of list constants + i>, an integer-valued one n<number of scalar constants + i>, so the body
 // (LConst / SCst of Heap/FuncState.v) is rendered by the existing printer
 func c10MkMixed(name string, defs []c10Def, mdefs []*c10XM, binds []c10XB, body *c10E, listBody bool) *c10Prog {
+	return c10MkMixedO(name, defs, nil, mdefs, binds, body, listBody)
+}
+
+// odefs: lists of lists `let o<k>=[c_i,c_j,...];`, each given by the numbers of the list constants it holds
+func c10MkMixedO(name string, defs []c10Def, odefs [][]int, mdefs []*c10XM, binds []c10XB, body *c10E, listBody bool) *c10Prog {
 	var src strings.Builder
-	var ds, ms, bs []string
+	var ds, os, ms, bs []string
 	nl, ns := 0, 0
 	for _, d := range defs {
 		if d.Kind == "DL" {
@@ -612,6 +620,15 @@ func c10MkMixed(name string, defs []c10Def, mdefs []*c10XM, binds []c10XB, body 
 			ds = append(ds, fmt.Sprintf("DS %d", d.I))
 			ns++
 		}
+	}
+	for k, od := range odefs {
+		var cs, ns []string
+		for _, i := range od {
+			cs = append(cs, fmt.Sprintf("c%d", i))
+			ns = append(ns, fmt.Sprintf("%d%%nat", i))
+		}
+		fmt.Fprintf(&src, "let o%d=[%s]; ", k, strings.Join(cs, ","))
+		os = append(os, "["+strings.Join(ns, "; ")+"]")
 	}
 	for i, m := range mdefs {
 		fmt.Fprintf(&src, "let m%d=%s; ", i, m.src())
@@ -627,6 +644,14 @@ func c10MkMixed(name string, defs []c10Def, mdefs []*c10XM, binds []c10XB, body 
 			fmt.Fprintf(&src, "let n%d=%s.%s; ", ns, b.M.src(), b.K)
 			bs = append(bs, "XBInt "+b.M.coq()+" "+CoqStr(b.K))
 			ns++
+		case "index":
+			fmt.Fprintf(&src, "let c%d=o%d[%s]; ", nl, b.O, b.I.src())
+			bs = append(bs, fmt.Sprintf("XBIndex %d %s", b.O, b.I.coq()))
+			nl++
+		case "osize":
+			fmt.Fprintf(&src, "let n%d=o%d.size(); ", ns, b.O)
+			bs = append(bs, fmt.Sprintf("XBOSize %d", b.O))
+			ns++
 		default:
 			fmt.Fprintf(&src, "let n%d=%s.size(); ", ns, b.M.src())
 			bs = append(bs, "XBSize "+b.M.coq())
@@ -641,7 +666,7 @@ func c10MkMixed(name string, defs []c10Def, mdefs []*c10XM, binds []c10XB, body 
 	p := c10Opaque(name, src.String())
 	p.Class = "mixed:" + name
 	p.ListBody = listBody
-	p.XCoq = fmt.Sprintf("(mkXP [%s] [%s] [%s] (%s%s))", strings.Join(ds, "; "), strings.Join(ms, "; "), strings.Join(bs, "; "), bk, body.coq())
+	p.XCoq = fmt.Sprintf("(mkXP [%s] [%s] [%s] [%s] (%s%s))", strings.Join(ds, "; "), strings.Join(os, "; "), strings.Join(ms, "; "), strings.Join(bs, "; "), bk, body.coq())
 	return p
 }
 
@@ -684,6 +709,19 @@ func c10MixedModelledPool() []*c10Prog {
 		c10MkMixed("mixed-guard-in-map", guard, []*c10XM{xmLit("l", xvL(1), "n", xvI(sLit(4)))},
 			[]c10XB{{Kind: "list", M: xmPut(xmConst(0), "z", xvI(sArg(0))), K: "l"}, {Kind: "int", M: xmPut(xmConst(0), "z", xvI(sArg(0))), K: "z"}},
 			zTry(zSize(lAppend(lConst(2), a0)), zAdd(zFirst(lTop(sAdd(sArg(1), sLit(1)), lConst(2))), zS(sCst(0)))), false),
+		// LISTS OF LISTS: inner lists (lazy / with spare capacity) held by an outer constant, obtained by index, appended to
+		c10MkMixedO("mixed-lol-nested-const", []c10Def{dL(lLit(1, 2)), dL(lMap(sLit(1), lConst(0))), dL(lLit(3)), dL(lAppend(lConst(2), zS(sLit(4))))},
+			[][]int{{1, 3}}, nil, []c10XB{{Kind: "index", O: 0, I: sArg(0)}},
+			lAppend(lConst(4), a1), true),
+		c10MkMixedO("mixed-lol-spare-twice", spare, [][]int{{1, 0, 1}}, nil,
+			[]c10XB{{Kind: "index", O: 0, I: sArg(0)}, {Kind: "index", O: 0, I: sAdd(sArg(1), sLit(-1))}, {Kind: "osize", O: 0}},
+			zAdd(zMul(zIndex(lAppend(lConst(2), a0), zS(sArg(1))), zS(sLit(100))), zAdd(zSize(lAppend(lConst(3), a1)), zS(sMul(sCst(0), sArg(0))))), false),
+		c10MkMixedO("mixed-lol-lazy-in-map", lazy, [][]int{{0, 1}, {1}}, []*c10XM{xmLit("l", xvL(1), "n", xvI(sLit(2)))},
+			[]c10XB{{Kind: "index", O: 0, I: sArg(0)}, {Kind: "list", M: xmLit("a", xvI(sArg(1)), "l", xvL(2)), K: "l"}, {Kind: "list", M: xmPut(xmConst(0), "z", xvI(sArg(1))), K: "l"}, {Kind: "index", O: 1, I: sLit(0)}},
+			zAdd(zAdd(zSum(lMap(sArg(1), lConst(3))), zIndex(lConst(4), a1)), zSize(lAppend(lConst(5), a0))), false),
+		c10MkMixedO("mixed-lol-guard-inner", guard, [][]int{{0, 1}}, nil,
+			[]c10XB{{Kind: "index", O: 0, I: sArg(0)}},
+			zTry(zSize(lAppend(lConst(2), a1)), zAdd(zFirst(lTop(sAdd(sArg(1), sLit(1)), lConst(2))), zS(sArg(1)))), false),
 		// per-evaluation literals only (no constant map), integer fields and size
 		c10MkMixed("mixed-literal-ints", nil, nil,
 			[]c10XB{{Kind: "int", M: xmPut(xmLit("a", xvI(sArg(0)), "b", xvI(sMul(sArg(1), sLit(3)))), "c", xvI(sAdd(sArg(0), sLit(1)))), K: "c"},
@@ -705,6 +743,14 @@ func c10RandomMixed(r *Rng, n int) *c10Prog {
 		}
 		defs = append(defs, dL(e))
 		g.nl++
+	}
+	var odefs [][]int
+	for i, no := 0, r.Pick(3); i < no; i++ {
+		var od []int
+		for j, ne := 0, 1+r.Pick(3); j < ne; j++ {
+			od = append(od, r.Pick(g.nl))
+		}
+		odefs = append(odefs, od)
 	}
 	ikeys := []string{"a", "b", "k", "n", "z"}
 	lkeys := []string{"l", "l2", "lx", "lst"}
@@ -825,6 +871,21 @@ func c10RandomMixed(r *Rng, n int) *c10Prog {
 	}
 	var binds []c10XB
 	for i, nb := 0, 1+r.Pick(3); i < nb; i++ {
+		if len(odefs) > 0 && r.Chance(0.4) {
+			o := r.Pick(len(odefs))
+			if r.Chance(0.2) {
+				binds = append(binds, c10XB{Kind: "osize", O: o})
+				g.ns++
+			} else {
+				ix := sArg(r.Pick(2)) // sometimes out of range: the let fails
+				if r.Chance(0.3) {
+					ix = sLit(int64(r.Pick(len(odefs[o]))))
+				}
+				binds = append(binds, c10XB{Kind: "index", O: o, I: ix})
+				g.nl++
+			}
+			continue
+		}
 		m, keys := rmexp(1 + r.Pick(2))
 		kind := r.Pick(5)
 		if r.Chance(0.08) {
@@ -850,7 +911,7 @@ func c10RandomMixed(r *Rng, n int) *c10Prog {
 			body = g.zexp(1 + r.Pick(3))
 		}
 		if body.nofold() && body.hasArg() && body.hasConst() {
-			p := c10MkMixed(fmt.Sprintf("random-mixed-%d", n), defs, mdefs, binds, body, listBody)
+			p := c10MkMixedO(fmt.Sprintf("random-mixed-%d", n), defs, odefs, mdefs, binds, body, listBody)
 			p.Class = "mixed:random"
 			return p
 		}
@@ -1863,7 +1924,7 @@ func c10RunSession(c *c10Case, sum *Summary) *c10Result {
 					}
 				}
 				if other && (fn.prog.Class == "lazy-const" || fn.prog.Class == "spare-const" || strings.HasPrefix(fn.prog.Class, "opaque:lazy") || fn.prog.Class == "opaque:append-both" ||
-					strings.HasPrefix(fn.prog.Class, "mixed:mixed-spare") || strings.HasPrefix(fn.prog.Class, "mixed:mixed-lazy")) {
+					strings.HasPrefix(fn.prog.Class, "mixed:mixed-spare") || strings.HasPrefix(fn.prog.Class, "mixed:mixed-lazy") || strings.HasPrefix(fn.prog.Class, "mixed:mixed-lol")) {
 					res.nontriv = true
 				}
 			}
